@@ -54,13 +54,13 @@ def families() -> list[str]:
     return _DB_CACHE["fam"]
 
 
-def images(family: str) -> list[dict]:
-    """[{target, auth, cls, image_type, mixins}] from the family's database (latest revision)."""
-    key = ("img", family)
+def images(family: str, revision: str = "latest") -> list[dict]:
+    """[{target, auth, cls, image_type, mixins}] from the family's database (of that revision)."""
+    key = ("img", family, revision)
     if key not in _DB_CACHE:
         from spsdk.utils.database import get_db
 
-        db = get_db(family, "latest")
+        db = get_db(family, revision)
         tab = db.get_dict("mbi", "images")
         classes = db.get_dict("mbi", "mbi_classes")
         out = []
@@ -75,15 +75,34 @@ def images(family: str) -> list[dict]:
     return _DB_CACHE[key]
 
 
-def fixed_image_type(family: str) -> int:
+def fixed_image_type(family: str, revision: str = "latest") -> int:
     from spsdk.utils.database import get_db
 
-    return get_db(family, "latest").get_int("mbi", ["fixed_image_type"], -1)
+    return get_db(family, revision).get_int("mbi", ["fixed_image_type"], -1)
 
 
-def class_set_signature(family: str):
-    return (tuple((i["target"], i["auth"], i["image_type"], tuple(i["mixins"])) for i in images(family)),
-            fixed_image_type(family))
+def mbi_revisions() -> list:
+    """(family, revision) pairs whose image classes differ from the ones of the latest revision."""
+    if "mbirevs" not in _DB_CACHE:
+        from spsdk.utils.database import DatabaseManager
+
+        out = []
+        for fam in families():
+            latest = class_set_signature(fam)
+            for rev in DatabaseManager().db.devices.get(fam).revisions.revision_names():
+                try:
+                    sig = class_set_signature(fam, rev)
+                except Exception:  # pylint: disable=broad-except
+                    continue
+                if sig != latest:
+                    out.append((fam, rev))
+        _DB_CACHE["mbirevs"] = out
+    return _DB_CACHE["mbirevs"]
+
+
+def class_set_signature(family: str, revision: str = "latest"):
+    return (tuple((i["target"], i["auth"], i["image_type"], tuple(i["mixins"])) for i in images(family, revision)),
+            fixed_image_type(family, revision))
 
 
 def representative_families() -> list[str]:
@@ -141,22 +160,22 @@ def tz_revisions() -> list:
     return _DB_CACHE["tzrevs"]
 
 
-def isk_limits(family: str):
+def isk_limits(family: str, revision: str = "latest"):
     from spsdk.utils.database import get_db
 
-    db = get_db(family, "latest")
+    db = get_db(family, revision)
     return db.get_int("cert_block", "isk_data_limit"), db.get_int("cert_block", "isk_data_alignment")
 
 
-def schema_properties(family: str, info: dict) -> set:
+def schema_properties(family: str, info: dict, revision: str = "latest") -> set:
     """Option names the class's own validation schema knows."""
-    key = ("schema", family, info["cls"])
+    key = ("schema", family, info["cls"], revision)
     if key not in _DB_CACHE:
         from spsdk.image.mbi.mbi import create_mbi_class
 
-        cls = create_mbi_class(info["cls"], family)
+        cls = create_mbi_class(info["cls"], family, revision)
         props = set()
-        for sch in cls.get_validation_schemas(family):
+        for sch in cls.get_validation_schemas(family, revision):
             props.update((sch.get("properties") or {}).keys())
         _DB_CACHE[key] = props
     return _DB_CACHE[key]
@@ -465,7 +484,7 @@ def build(family: str, info: dict, rng, workdir: str, tier: str = "quick", want:
     b.family, b.info = family, info
     b.revision = want.get("revision", "latest")
     mx = info["mixins"]
-    props = schema_properties(family, info)
+    props = schema_properties(family, info, b.revision)
     d = os.path.join(workdir, f"{family}_{info['target']}_{info['auth']}_{rng.getrandbits(40):010x}")
     os.makedirs(d, exist_ok=True)
     b.dir = d
